@@ -372,6 +372,8 @@ func sorterFiles(parent string) []string {
 }
 
 func runMorass(t *testing.T, c *Case, o RunOpts) *Result {
+	noteCase(c)
+	defer progress.Add(1)
 	var pl MorassPlan
 	if err := json.Unmarshal(c.Plan, &pl); err != nil {
 		return &Result{ToolErr: err.Error()}
